@@ -399,6 +399,32 @@ func linearIn(v ssa.Value) (*ssa.Phi, int64, bool) {
 	return nil, 0, false
 }
 
+// phiPlusForm expresses v as phi + rest where rest is a linear form that does
+// not involve the phi (position := basePosition - (k - 1)).
+func phiPlusForm(v ssa.Value, env *linEnv) (*ssa.Phi, lin, bool) {
+	switch x := v.(type) {
+	case *ssa.Phi:
+		return x, linConst(0), true
+	case *ssa.Convert:
+		return phiPlusForm(x.X, env)
+	case *ssa.BinOp:
+		switch x.Op {
+		case token.ADD:
+			if p, f, ok := phiPlusForm(x.X, env); ok {
+				return p, f.add(linOf(x.Y, env), 1), true
+			}
+			if p, f, ok := phiPlusForm(x.Y, env); ok {
+				return p, f.add(linOf(x.X, env), 1), true
+			}
+		case token.SUB:
+			if p, f, ok := phiPlusForm(x.X, env); ok {
+				return p, f.add(linOf(x.Y, env), -1), true
+			}
+		}
+	}
+	return nil, lin{}, false
+}
+
 // lenOfBase expresses v as len(base) + b.
 func lenOfBase(v ssa.Value, base ssa.Value) (int64, bool) {
 	if lc := builtinCall(v, "len"); lc != nil && stripConv(lc.Call.Args[0]) == base {
